@@ -75,7 +75,7 @@ class ExprGen:
             kinds = [r.choice("vc") if c else r.choice("vrc") for _, c in types]
             return ("mem", r.randrange(K), kinds, 1 if r.random() < 0.35 else 0, 1 if r.random() < 0.3 else 0), True
         if k in ("bind", "bindn"):
-            nb = r.choice([1, 1, 2, 2, 3])
+            nb = r.choice([1, 1, 2, 2, 3, 4, 5, 6])
             bounds, btypes = [], []
             for _ in range(nb):
                 ch = r.random()
@@ -146,7 +146,7 @@ class ExprGen:
             c = r.randint(5000, 5999) if (allow_throw and r.random() < 0.3) else r.randint(1000, 1999)
             return ("ec", f, c), True
         if k == "to":
-            ts = [r.randrange(K) for _ in range(r.choice([1, 1, 2, 3]))]
+            ts = [r.randrange(K) for _ in range(r.choice([1, 1, 2, 3, 4, 5, 6]))]
             f, rv = self.gen(types, depth + 1, need_value, allow_throw)
             return ("to", f, ts), rv
         raise AssertionError(k)
